@@ -45,7 +45,7 @@ def base_recipe(draw, kind):
     raise ValueError(kind)
 
 
-EDITS = ('cell', 'missing', 'label', 'swap', 'name', 'class', 'layout', 'dtype', 'droprow', 'collabel', 'ixname', 'colname', 'ixdtype', 'coldtype', 'ixclass')
+EDITS = ('cell', 'missing', 'label', 'swap', 'name', 'class', 'layout', 'dtype', 'droprow', 'collabel', 'ixname', 'colname', 'ixdtype', 'coldtype', 'ixclass', 'ihshared')
 
 
 @st.composite
@@ -119,6 +119,8 @@ def apply_edit(rec, kind, e, state):
             ix['name'] = ['n1', 'n2', None, ('a', 1)][e['v'] % 4]
         elif op == 'class':
             state['cls'] = ['plain', 'go'][e['v'] % 2]
+        elif op == 'ihshared':
+            state['ih_shared'] = True  # same labels, built so that equal sub-trees share one Index object (as from_product does)
         elif op == 'dtype' and ix['kind'] in ('int',) and n:
             state['label_dtype'] = ['int64', 'int32', 'float64'][e['v'] % 3]
         return
@@ -175,6 +177,8 @@ def apply_edit(rec, kind, e, state):
         if ax is not None and ax['kind'] in ('int', 'auto') and ax['labels']:
             ax['kind'] = 'int'
             state['axdtype_' + ('i' if op == 'ixdtype' else 'c')] = ['int64', 'int32', 'int16'][e['v'] % 3]
+    elif op == 'ihshared':
+        state['ih_shared'] = True
     elif op == 'ixclass':
         # a datetime64 axis held by a plain Index instead of IndexDate (same labels, other class)
         if rec['index']['kind'] == 'date':
@@ -238,9 +242,35 @@ def derive(base, kind, edits, cls):
     return rec, state
 
 
+def _ih_shared(ixrec):
+    """A depth-2 hierarchy holding the recipe's labels in which equal lists of inner labels are one shared Index object
+    (the structure from_product / from_index_items produce), or None when the recipe is not depth 2."""
+    labels = ixrec['labels']
+    if ixrec['kind'] != 'ih' or not labels or len(labels[0]) != 2:
+        return None
+    groups = []
+    for o, i in labels:
+        if groups and eq(canon(groups[-1][0]), canon(o)):
+            groups[-1][1].append(i)
+        else:
+            groups.append((o, [i]))
+    cache = {}
+    items = []
+    for o, inner in groups:
+        key = repr([canon(x) for x in inner])
+        if key not in cache:
+            cache[key] = (sf.IndexDate if all(isinstance(x, np.datetime64) for x in inner) else sf.Index)(inner)
+        items.append((o, cache[key]))
+    outer_ctor = sf.IndexDate if all(isinstance(o, np.datetime64) for o, _ in groups) else sf.Index
+    ih = sf.IndexHierarchy.from_index_items(items, index_constructor=outer_ctor)
+    return ih.rename(ixrec.get('name')) if ixrec.get('name') is not None else ih
+
+
 def _axis_override(rec, state, which):
     """An explicit axis Index for the dtype / class edits, or None."""
     ax = rec['index'] if which == 'i' else rec['columns']
+    if state.get('ih_shared') and ax['kind'] == 'ih':
+        return _ih_shared(ax)
     ld = state.get('axdtype_' + which)
     if ld and ax['kind'] == 'int':
         return sf.Index(np.array(ax['labels'], dtype=ld), name=ax.get('name'))
@@ -272,6 +302,10 @@ def build(rec, kind, state):
         f2 = sf.Frame.from_records([(1, 2)], columns=('p', 'q'), name='second')
         return sf.Bus.from_frames((f.rename('first'), f2), name=rec.get('name'))
     ix = gen.build_index(rec['index'], go=(cls == 'go'))
+    if state.get('ih_shared') and cls != 'go':
+        shared = _ih_shared(rec['index'])
+        if shared is not None:
+            ix = shared
     ld = state.get('label_dtype')
     if ld and rec['index']['kind'] == 'int':
         c = sf.IndexGO if cls == 'go' else sf.Index
@@ -665,9 +699,77 @@ def check_dl(case):
     return {'nt': values_equal and not dtypes_equal or (case['cut_a'] != case['cut_b'] and m >= 2), 'cls': classes}
 
 
+# ---------------------------------------------------------------------------------------------
+# hierarchies whose equal sub-trees are one shared Index object (from_product / from_index_items) against hierarchies
+# built label by label: equality must not depend on how the tree is stored
+
+@st.composite
+def shared_cases(draw):
+    route = draw(st.sampled_from(['from_product', 'from_index_items', 'from_product3']))
+    wrap = draw(st.sampled_from(['ih', 'series', 'frame_columns', 'frame_he']))
+    outer = draw(st.lists(st.sampled_from(['a', 'b', 'c', 'd']), min_size=2, max_size=4, unique=True))
+    inner = draw(st.lists(st.integers(0, 5), min_size=1, max_size=3, unique=True))
+    third = draw(st.lists(st.sampled_from(['x', 'y']), min_size=1, max_size=2, unique=True)) if route == 'from_product3' else None
+    n = len(outer) * len(inner) * (len(third) if third else 1)
+    edit = draw(st.one_of(st.none(), st.tuples(st.integers(0, n - 1), st.integers(0, 2), st.integers(50, 53))))
+    return {'route': route, 'wrap': wrap, 'outer': outer, 'inner': inner, 'third': third, 'edit': edit,
+            'opts': {'compare_name': draw(st.booleans()), 'compare_dtype': draw(st.booleans()), 'compare_class': draw(st.booleans()), 'skipna': draw(st.booleans())}}
+
+
+def check_shared(case):
+    import itertools
+    outer, inner, third = case['outer'], case['inner'], case['third']
+    lists = [outer, inner] + ([third] if third else [])
+    labels = list(itertools.product(*lists))
+    if case['route'] == 'from_index_items':
+        shared = sf.Index(inner)
+        a = sf.IndexHierarchy.from_index_items([(o, shared) for o in outer])
+    else:
+        a = sf.IndexHierarchy.from_product(*lists)
+    lb = [tuple(t) for t in labels]
+    changed = False
+    if case['edit'] is not None:
+        pos, d, v = case['edit']
+        d = d % len(lists)
+        t = list(lb[pos])
+        new = ('z%d' % v) if isinstance(t[d], str) else v
+        t[d] = new
+        cand = lb[:pos] + [tuple(t)] + lb[pos + 1:]
+        if len(set(cand)) == len(cand) and gen.is_tree_order(cand):
+            lb, changed = cand, True
+    b = lib(lambda: sf.IndexHierarchy.from_labels(lb))
+    if isinstance(b, Raised):
+        raise Discard('edited labels rejected: %s' % b.cls)
+    wrap = case['wrap']
+    n = len(labels)
+    if wrap == 'series':
+        a, b = sf.Series(np.arange(n), index=a), sf.Series(np.arange(n), index=b)
+    elif wrap in ('frame_columns', 'frame_he'):
+        cls = sf.FrameHE if wrap == 'frame_he' else sf.Frame
+        a, b = cls(np.arange(n).reshape(1, n), columns=a), cls(np.arange(n).reshape(1, n), columns=b)
+    opts = case['opts']
+    want = not changed
+    g_ab = _equals(a, b, opts, 'equals(shared, labels, %r)' % opts)
+    g_ba = _equals(b, a, opts, 'equals(labels, shared, %r)' % opts)
+    what = '%s vs from_labels%s, wrapped as %s' % (case['route'], ' with one label changed' if changed else '', wrap)
+    if g_ab != g_ba:
+        raise Failure('asymmetric', '%s: equals(a,b)=%s but equals(b,a)=%s opts=%r' % (what, g_ab, g_ba, opts))
+    if g_ab != want:
+        raise Failure('predicate', '%s: equals=%s, the labels are %s; opts=%r' % (what, g_ab, 'equal' if want else 'different', opts))
+    if wrap == 'frame_he':
+        r = must(lambda: a == b, what='FrameHE ==')
+        if r is not want:
+            raise Failure('he-eq', '%s: FrameHE == is %r' % (what, r))
+        if r and hash(a) != hash(b):
+            raise Failure('hash', '%s: equal but hash differs' % what)
+    return {'nt': True, 'cls': ['shared:' + case['route'], 'shared-wrap:' + wrap, 'shared:' + ('changed' if changed else 'same')]}
+
+
 SUBS = [
     Sub('triples', cases(), check, quick=10000, thorough=48000, tag=tag,
         rule='equals vs reference predicate on recipes; symmetry; reflexivity on fresh copies; transitivity; HE ==/!=/hash/set'),
+    Sub('shared_trees', shared_cases(), check_shared, quick=4000, thorough=24000,
+        rule='hierarchies from from_product / from_index_items (shared Index objects) vs the same or one-label-different labels built by from_labels; both directions; Series / Frame / FrameHE wrappers'),
     Sub('dtype_layouts', dl_cases(), check_dl, quick=8000, thorough=48000,
         rule='equal (or one-cell-different) numbers under independently drawn per-column dtypes and independent block layouts on the two sides; equals in both directions vs per-column reference; FrameHE ==/hash'),
 ]
